@@ -287,22 +287,19 @@ def extractTagAndAandB(a, delimiter = "="):
     return [tag, A, B]
 
 def replaceUserTags(line, dict_key_vals):
-    is_defined = [key for key in dict_key_vals if key in line]
-    if not is_defined and not hasDefault(line): # if its not defined (even None or '') then leave it.
-        return line
-
-    taganddefault    = extractDefaultAndTag(line)
-    line             = removeDefault(line)#removeDefault2(line, taganddefault[1])
-    taganddefault[0] = removeDefault(taganddefault[0])
-
-    for tag, value in dict_key_vals.items():
-        if value == None: # None is allowed ... it should be '' and not 'None'.
-            value = ""
-        line = line.replace(f'<<<{tag}>>>', str(value))
-    if taganddefault[1].strip():
-        line = line.replace(taganddefault[0], taganddefault[1])
-    line = line.replace('<<<','').replace('>>>','')
-    return line
+    """
+    Replaces every <<<Tag>>> / <<<Tag=default>>> of the line on its own: by the value assigned to 'Tag'
+    (None counts as ''), else by its inline default, else the tag stays as it is.
+    """
+    def value_of(match):
+        name, has_default, default = match.group(1).partition("=")
+        if name in dict_key_vals:
+            value = dict_key_vals[name]
+            return "" if value is None else str(value) # None is allowed ... it should be '' and not 'None'.
+        if has_default:
+            return default
+        return match.group(0)
+    return tag_pattern.sub(value_of, line)
 
 def removeDefault2(a, default, delimiter = "="):
     return a.replace(default,"").replace(delimiter, "")
